@@ -136,7 +136,18 @@ def _check_date(e, out, only_compose=False):
             cn = "_ges_rentenv_beitr_bemess_grenze_m" if b in ("ges_rentenv", "arbeitsl_v") else "_ges_krankenv_beitr_bemess_grenze_m"
             if cn in dag:
                 ceils[b] = df.closed_form(cn, stop=stop) if (cn in df.result_terms and cn not in stop) else df.var(cn)
-        return {"df": df, "w": w, "forms": forms, "base": [*shared, *regular], "ceil": ceils, "stop": stop, "wage_dep": wage_dep}
+        # pensioner contributions as functions of the pension sum (cut there)
+        pens = {}
+        pv = "sum_ges_rente_priv_rente_m"
+        if pv in dag:
+            stop_p = set(stop) | {pv}
+            for n in dag.nodes:
+                if n.endswith("_beitr_rentner_m") and n in df.result_terms and pv in nx.ancestors(dag, n):
+                    try:
+                        pens[n] = df.closed_form(n, stop=stop_p)
+                    except (KeyError, symx.Unsupported):
+                        pass
+        return {"df": df, "w": w, "forms": forms, "base": [*shared, *regular], "ceil": ceils, "stop": stop, "wage_dep": wage_dep, "pens": pens, "pension_var": df.var(pv) if pv in dag else None}
     for b in BRANCHES:
         tgt = f"{b}_beitr_arbeitnehmer_m"
         if tgt not in dag:
